@@ -69,3 +69,63 @@ func verifRoundTripChannelProposalRejMsg(w0 io.Writer, r0 io.Reader, x ChannelPr
 	decErr = y.Decode(r0)
 	return y, nil, decErr
 }
+
+func verifRoundTripChannelIDs(w0 io.Writer, r0 io.Reader, x channelIDsWithLen) (y channelIDsWithLen, encErr, decErr error) {
+	encErr = x.Encode(w0)
+	if encErr != nil {
+		return nil, encErr, nil
+	}
+	verifLink(w0, r0)
+	decErr = y.Decode(r0)
+	return y, nil, decErr
+}
+
+func verifRoundTripIndexMap(w0 io.Writer, r0 io.Reader, x indexMapWithLen) (y indexMapWithLen, encErr, decErr error) {
+	encErr = x.Encode(w0)
+	if encErr != nil {
+		return nil, encErr, nil
+	}
+	verifLink(w0, r0)
+	decErr = y.Decode(r0)
+	return y, nil, decErr
+}
+
+func verifRoundTripIndexMaps(w0 io.Writer, r0 io.Reader, x indexMapsWithLen) (y indexMapsWithLen, encErr, decErr error) {
+	encErr = x.Encode(w0)
+	if encErr != nil {
+		return nil, encErr, nil
+	}
+	verifLink(w0, r0)
+	decErr = y.Decode(r0)
+	return y, nil, decErr
+}
+
+func verifRoundTripVirtualChannelProposalMsg(w0 io.Writer, r0 io.Reader, x VirtualChannelProposalMsg) (y VirtualChannelProposalMsg, encErr, decErr error) {
+	encErr = x.Encode(w0)
+	if encErr != nil {
+		return y, encErr, nil
+	}
+	verifLink(w0, r0)
+	decErr = y.Decode(r0)
+	return y, nil, decErr
+}
+
+func verifRoundTripVirtualChannelProposalAccMsg(w0 io.Writer, r0 io.Reader, x VirtualChannelProposalAccMsg) (y VirtualChannelProposalAccMsg, encErr, decErr error) {
+	encErr = x.Encode(w0)
+	if encErr != nil {
+		return y, encErr, nil
+	}
+	verifLink(w0, r0)
+	decErr = y.Decode(r0)
+	return y, nil, decErr
+}
+
+func verifRoundTripChannelUpdateRejMsg(w0 io.Writer, r0 io.Reader, x ChannelUpdateRejMsg) (y ChannelUpdateRejMsg, encErr, decErr error) {
+	encErr = x.Encode(w0)
+	if encErr != nil {
+		return y, encErr, nil
+	}
+	verifLink(w0, r0)
+	decErr = y.Decode(r0)
+	return y, nil, decErr
+}
